@@ -227,11 +227,20 @@ def run_wallets(ctx, nets):
     dbfile = os.path.join(os.environ['BCL_DATA_DIR'], 'c16_wallets.sqlite')
     uri = 'sqlite:///' + dbfile
     configs = [('hd-segwit', dict(witness_type='segwit')), ('hd-legacy', dict(witness_type='legacy')), ('hd-p2sh-segwit', dict(witness_type='p2sh-segwit'))]
+    from bitcoinlib.keys import Key
+    configs += [('single-segwit', dict(witness_type='segwit', scheme='single')), ('single-legacy', dict(witness_type='legacy', scheme='single'))]
     for name, kw in configs:
         seed = bytes(rng.randrange(256) for _ in range(32))
-        master = HDKey.from_seed(seed, network='bitcoin', witness_type=kw['witness_type'])
-        w = Wallet.create('c16_' + name, keys=master, network='bitcoin', db_uri=uri, **kw)
-        keys = [w.get_key(), w.new_key(), w.new_key_change()]
+        single = kw.get('scheme') == 'single'
+        if single:
+            # a wallet around ONE private key (no derivation): its "master" is that key
+            master = HDKey(Key(int.from_bytes(seed, 'big') % (2 ** 255) + 1), network='bitcoin', witness_type=kw['witness_type'], key_type='single')
+            w = Wallet.create('c16_' + name, keys=Key(master.secret), network='bitcoin', db_uri=uri, **kw)
+            keys = [w.get_key()]
+        else:
+            master = HDKey.from_seed(seed, network='bitcoin', witness_type=kw['witness_type'])
+            w = Wallet.create('c16_' + name, keys=master, network='bitcoin', db_uri=uri, **kw)
+            keys = [w.get_key(), w.new_key(), w.new_key_change()]
         secrets = {}
         secrets['master'] = secret_encodings(master.secret, nets, (master.depth, master.parent_fingerprint, master.child_index, master.chain))
         for wk in keys:
@@ -250,7 +259,7 @@ def run_wallets(ctx, nets):
             'Wallet.as_json': [w.as_json().encode()],
             'Wallet.info': [buf.getvalue().encode()],
             'Wallet.keys() repr': [repr(w.keys()).encode()],
-            'WalletKey.repr': [repr(keys[0]).encode(), repr(keys[1]).encode()],
+            'WalletKey.repr': [repr(k_).encode() for k_ in keys[:2]],
             'WalletKey.as_dict': blobs_of([k.as_dict() for k in keys]),
             'public_master.wif': [w.public_master().wif.encode()],
             'public_master object': blobs_of(w.public_master()),
@@ -262,7 +271,7 @@ def run_wallets(ctx, nets):
             'Wallet.keys(depth=0, is_private=True, as_dict=True)': blobs_of(w.keys(depth=0, is_private=True, as_dict=True)),
         }
         try:
-            views['WalletKey.public()'] = blobs_of(copy.copy(keys[2]).public())
+            views['WalletKey.public()'] = blobs_of(copy.copy(keys[-1]).public())
         except Exception:
             pass
         for vname, blobs in views.items():
@@ -297,6 +306,8 @@ def run_wallets(ctx, nets):
                 if hit:
                     ctx.violation('private key material in a public view of a re-opened wallet', {'op': 'view %s after %s' % (vname, history), 'wallet': name,
                                                                                                    'encodings_found': hit[:5]})
+        if single:
+            continue
         # watch-only wallet from the account public key
         pubwif = w.public_master().wif
         w2 = Wallet.create('c16_watch_' + name, keys=pubwif, network='bitcoin', db_uri=uri, **kw)
